@@ -322,6 +322,16 @@ class Parser:
                 if len(a) == 1 and a[0].kind == "C": return a[0]
                 if len(a) != 1 or a[0].kind not in ("R", "V"): raise Untranslatable("SIMDVector constructor call")
                 return Val("V", a[0].text, fo=a[0].fo, ctype=a[0].ctype)
+            if v == "reinterpret_cast" and self.peek() == ("p", "<"):
+                names = []
+                self.eat("<")
+                while self.peek() != ("p", ">"): names.append(self.eat()[1])
+                self.eat(">"); self.eat("("); e = self.expr(); self.eat(")")
+                ty = " ".join(n for n in names if n not in ("const", "*"))
+                if e.kind in ("P32", "P64") and "*" in names:
+                    k = "P64" if ty in ("double", "int64_t", "uint64_t", "long long") else "P32"
+                    return Val(k, e.text, fo=e.fo, ctype=ty)
+                raise Untranslatable("reinterpret_cast to %s" % ty)
             if v == "vector_type" and self.cls and self.peek() == ("p", "("):
                 a = self.args()
                 if self.cplx and len(a) == 2 and all(x.kind in ("R", "V") for x in a): return Val("C", (a[0].text, a[1].text), fo=a[0].fo or a[1].fo)
@@ -348,6 +358,7 @@ class Parser:
         def kind_ok(x, k):
             if k in ("R", "V"): return x.kind in ("R", "V")
             if k == "C": return x.kind == "C"
+            if k in ("P32", "P64"): return x.kind in ("P32", "P64")
             return x.kind in (k, "imm", "flit") or (x.kind == "i32" and k == "i64")
         cands = [f for f in cands if all(kind_ok(x, k) for x, k in zip(a, f["kinds"]))]
         if len(cands) > 1:
@@ -363,6 +374,7 @@ class Parser:
         txt = []
         for x, k in zip(a, f["kinds"]):
             if k == "C": txt.append(pairtext(x))
+            elif k in ("P32", "P64"): txt.append(x.text[0] if x.text[1] == 0 else "(loadw %s %d)" % x.text)
             else: txt.append(self.coerce(x, k if k != "V" else "R").text)
         expr = "(%s%s%s)" % (f["lean"], " fo" if f["fo"] else "", "".join(" " + t for t in txt))
         if f["ret"] == "C": return mkC(expr, fo), f
@@ -385,6 +397,16 @@ class Parser:
         if re.match(r"^loadu?_(ps|pd|si128|si256|si512|epi32|epi64)$", base):
             if len(a) != 1 or a[0].kind not in ("P32", "P64"): raise Untranslatable("load from a non-pointer")
             return Val("R", "(loadw %s %d)" % a[0].text, fo=fo)
+        mm_ = re.match(r"^maskload_(ps|pd|epi32|epi64)$", base)
+        if mm_:
+            if len(a) != 2 or a[0].kind not in ("P32", "P64"): raise Untranslatable("maskload arguments")
+            w64 = mm_.group(1) in ("pd", "epi64")
+            return Val("R", "(maskload%s (loadw %s %d) %s)" % ("64" if w64 else "32", a[0].text[0], a[0].text[1], self.coerce(a[1], "R").text), fo=fo)
+        mm_ = re.match(r"^mask_loadu?_(ps|pd|epi32|epi64)$", base)
+        if mm_:
+            if len(a) != 3 or a[2].kind not in ("P32", "P64") or a[1].kind != "imm": raise Untranslatable("mask_load with a non-constant mask")
+            w64 = mm_.group(1) in ("pd", "epi64")
+            return Val("R", "(kload%s %s %d (loadw %s %d))" % ("64" if w64 else "32", self.coerce(a[0], "R").text, a[1].const, a[2].text[0], a[2].text[1]), fo=fo)
         if base in ("load_ss", "load_sd"):
             if len(a) != 1 or a[0].kind not in ("P32", "P64"): raise Untranslatable("load from a non-pointer")
             return Val("R", "(loadw_%s %s %d)" % (base[-2:], a[0].text[0], a[0].text[1]), fo=fo)
@@ -727,6 +749,22 @@ def translate_function(f, funcs):
                 if pv.kind not in ("P32", "P64"): raise Untranslatable("store through a non-pointer")
                 W = {None: 4, "256": 8, "512": 16}[m.group(1)]
                 lets.append((pv.text[0], "(storew %s %d %d %s)" % (pv.text[0], pv.text[1], W, rv.text))); continue
+            m = re.match(r"^_mm(256|512)?_maskstore_(ps|pd|epi32|epi64)\s*\((.*)\)$", s, re.S)
+            if m:
+                aa = split_args(m.group(3))
+                if len(aa) != 3: raise Untranslatable("maskstore arity")
+                pv = ev(aa[0]); mk = ev(aa[1], "R"); rv = ev(aa[2], "R")
+                if pv.kind not in ("P32", "P64"): raise Untranslatable("store through a non-pointer")
+                W = {None: 4, "256": 8, "512": 16}[m.group(1)]
+                lets.append((pv.text[0], "(maskstore%s %s %d %d %s %s)" % ("64" if m.group(2) in ("pd", "epi64") else "32", pv.text[0], pv.text[1], W, mk.text, rv.text))); continue
+            m = re.match(r"^_mm(256|512)?_mask_storeu?_(ps|pd|epi32|epi64)\s*\((.*)\)$", s, re.S)
+            if m:
+                aa = split_args(m.group(3))
+                if len(aa) != 3: raise Untranslatable("mask_store arity")
+                pv = ev(aa[0]); kv_ = ev(aa[1]); rv = ev(aa[2], "R")
+                if pv.kind not in ("P32", "P64") or kv_.kind != "imm": raise Untranslatable("mask_store with a non-constant mask")
+                W = {None: 4, "256": 8, "512": 16}[m.group(1)]
+                lets.append((pv.text[0], "(kstore%s %s %d %d %d %s)" % ("64" if m.group(2) in ("pd", "epi64") else "32", pv.text[0], pv.text[1], W, kv_.const, rv.text))); continue
             # call statement of a helper with reference (in-out) parameters
             m = re.match(r"^([A-Za-z_]\w*)\s*\((.*)\)$", s, re.S)
             if m and m.group(1) in funcs:
@@ -743,7 +781,14 @@ def translate_function(f, funcs):
                     target = toks_args[pos]
                     comp = ("%s.%d" % (tmp, n_out + 1)) if len(meta["outs"]) == 2 else tmp
                     if len(meta["outs"]) > 2: raise Untranslatable("more than two reference parameters")
-                    assign(target, Val("R", comp), env, lets, cls, cplx_cls, selfmod)
+                    if meta["kinds"][pos] in ("P32", "P64"):
+                        # the callee's memory is indexed from its pointer argument p + off: write it back at off
+                        pv = a[pos]
+                        if pv.kind not in ("P32", "P64"): raise Untranslatable("pointer argument")
+                        nm_, off_ = pv.text
+                        lets.append((nm_, comp if off_ == 0 else "(fun w => if %d ≤ w then %s (w - %d) else %s w)" % (off_, comp, off_, nm_)))
+                    elif not assign(target, Val("R", comp), env, lets, cls, cplx_cls, selfmod):
+                        raise Untranslatable("reference argument %r" % target[:30])
                 continue
             m = re.match(r"^([A-Za-z_]\w*)(\.value|\.value_r|\.value_i)?\s*=\s*(.*)$", s, re.S)
             if m:
